@@ -17,3 +17,6 @@ for d in "$DIR"/*.diff; do
     cd /repo && git checkout -- .
     echo "$line"
 done
+# rebuild from the restored tree: the binaries under sim/target must never be left holding a mutant
+# (VPSIM_NO_BUILD=1 runs would silently use them)
+cd /repo && git checkout -- . ; (cd /verif && ./check --setup >/dev/null 2>&1)
